@@ -143,3 +143,92 @@ func ModelContains(s, sub string) bool {
 	}
 	return false
 }
+
+func isDig(c byte) bool { return c >= '0' && c <= '9' }
+func isHexDig(c byte) bool {
+	return isDig(c) || (c >= 'a' && c <= 'f') || (c >= 'A' && c <= 'F')
+}
+
+// ModelParseIntOK models the error result of strconv.ParseInt(s, 0, 64) for
+// the texts the lexer can produce as INT tokens (digit-led, no sign, no
+// underscore) of at most 15 digits (no overflow).
+func ModelParseIntOK(s string) bool {
+	if len(s) == 0 || len(s) > 17 {
+		return false
+	}
+	if s[0] == '0' && len(s) > 1 {
+		c := s[1]
+		if c == 'x' || c == 'X' || c == 'b' || c == 'B' || c == 'o' || c == 'O' {
+			if len(s) == 2 {
+				return false
+			}
+			for i := 2; i < len(s); i++ {
+				d := s[i]
+				ok := false
+				if c == 'x' || c == 'X' {
+					ok = isHexDig(d)
+				} else if c == 'b' || c == 'B' {
+					ok = d == '0' || d == '1'
+				} else {
+					ok = d >= '0' && d <= '7'
+				}
+				if !ok {
+					return false
+				}
+			}
+			return true
+		}
+		// leading zero: octal
+		for i := 1; i < len(s); i++ {
+			if s[i] < '0' || s[i] > '7' {
+				return false
+			}
+		}
+		return true
+	}
+	for i := 0; i < len(s); i++ {
+		if !isDig(s[i]) {
+			return false
+		}
+	}
+	return true
+}
+
+// ModelParseFloatOK models the error result of strconv.ParseFloat(s, 64) for
+// digit-led decimal texts: digits [. digits*] [e|E [+|-] digits]. Range errors
+// (exponents of three or more digits) are outside the model; harnesses bound
+// the exponent to two digits.
+func ModelParseFloatOK(s string) bool {
+	i := 0
+	n := len(s)
+	nd := 0
+	for i < n && isDig(s[i]) {
+		i++
+		nd++
+	}
+	if i < n && s[i] == '.' {
+		i++
+		for i < n && isDig(s[i]) {
+			i++
+			nd++
+		}
+	}
+	if nd == 0 {
+		return false
+	}
+	if i < n && (s[i] == 'e' || s[i] == 'E') {
+		i++
+		if i < n && (s[i] == '+' || s[i] == '-') {
+			i++
+		}
+		k := 0
+		for i < n && isDig(s[i]) {
+			i++
+			k++
+		}
+		if k == 0 {
+			return false
+		}
+	}
+	return i == n
+}
